@@ -342,8 +342,10 @@ class Parser:
         parts.insert(0, e)
         cl = []
         for i, p in enumerate(parts):
-            if p[0] == "Fn" and p[1] == "bitShiftLeft" and len(p[2]) == 2 and p[2][1] == ("IntV", i):
-                cl.append(p[2][0])
+            # bitShiftLeft(toUInt64(<condition>), i)   (fix 052673d; SqlRender.bitset_parts prints this form)
+            if p[0] == "Fn" and p[1] == "bitShiftLeft" and len(p[2]) == 2 and p[2][1] == ("IntV", i) \
+                    and p[2][0][0] == "Fn" and p[2][0][1] == "toUInt64" and len(p[2][0][2]) == 1:
+                cl.append(p[2][0][2][0])
             else:
                 return None
         return cl
@@ -470,13 +472,16 @@ VERDICTS = {1: "the parse of the implementation's SQL does not render back to it
             2: "the reference interpreter has no value for the implementation's SQL",
             3: "model tree and implementation SQL select different rows on this database",
             4: "rows selected differ from the Prometheus meaning of the matchers",
-            5: "absent-label", 7: "more-than-8-matchers", 8: "no-matcher",
+            5: "absent-label", 7: "more-than-63-matchers", 8: "no-matcher",
             10: "step-bucket-off-grid", 11: "range-filter-off-grid", 12: "step-bucket-staleness-edge",
             9: "list-function reading and interpreter disagree on the model tree"}
 
 
 def slim(c):
     """a replayable case: inputs only"""
+    if c.get("multi"):      # replay the whole run on one querier
+        return {"id": c["parent"], "kind": "multi", "class": c.get("class"), "ctx": c["ctx"], "ldb": c.get("ldb"),
+                "calls": [{"hints": x["hints"], "ms": x.get("ms"), "rows": x.get("rows")} for x in c.get("calls") or []], "failing_call": c["call"]}
     keep = ("id", "kind", "sub", "class", "hints", "ctx", "ms", "query", "rows", "fetch", "db", "pdb", "sort_series")
     return {k: c[k] for k in keep if k in c and c[k] is not None}
 
@@ -524,7 +529,26 @@ def run(ck):
     promeng.run(ck)
 
 
+def expand_multi(cases):
+    """every Select of a multi-Select run on one querier becomes a querier-like case judged on ITS OWN hints"""
+    out = []
+    for c in cases:
+        if c["kind"] != "multi":
+            continue
+        for k, call in enumerate(c.get("calls") or []):
+            h = call["hints"]
+            lab = call.get("sql_labels") or []
+            out.append({"id": 10000000 + c["id"] * 16 + k, "kind": "querier", "multi": True, "call": k, "parent": c["id"],
+                        "class": (c.get("class") or []) + ["multi"], "hints": h, "ms": call.get("ms") or [],
+                        "ctx": {"from_ns": h["start"] * 10**6, "to_ns": h["end"] * 10**6, "limit": 0, "type": 2, "cluster": c["ctx"]["cluster"]},
+                        "tables": c.get("tables"), "rows": call.get("rows") or [], "fetch": [], "obs": call.get("obs") or [],
+                        "ldb": c.get("ldb") or [], "sql": call.get("sql") or "", "sql_labels": lab[0] if lab else "",
+                        "labels_statements": len(lab), "err": call.get("err") or c.get("err"), "calls": c.get("calls")})
+    return out
+
+
 def run_shard(ck, cases, idx):
+    cases = cases + expand_multi(cases)
     byid = {c["id"]: c for c in cases}
     lines = []
     parse_failures = []
@@ -558,12 +582,16 @@ def run_shard(ck, cases, idx):
         if c["kind"] == "querier" and not c.get("err"):
             h = c["hints"]
             cl = sx_bool(c["ctx"]["cluster"])
-            lines.append("(sel %d %s %s %s %s %s %s)" % (
-                cid, cl, sx_hints(h), sx_matchers(c.get("ms")),
-                sx_list(["(%d %d %d)" % (r["fp"], r["val"], r["ts"]) for r in c.get("rows") or []]),
-                sx_list(["(%d %s)" % (f["fp"], sx_labels(f["labels"])) for f in c.get("fetch") or []]),
-                sx_list(["(%s %d %s)" % (sx_labels(o["labels"]), o["fp"], sx_list(["(%d %d)" % (a, b) for a, b in o["samples"]]))
-                         for o in c.get("obs") or []])))
+            sx_rows = sx_list(["(%d %d %d)" % (r["fp"], r["val"], r["ts"]) for r in c.get("rows") or []])
+            sx_obs = sx_list(["(%s %d %s)" % (sx_labels(o["labels"]), o["fp"], sx_list(["(%d %d)" % (a, b) for a, b in o["samples"]]))
+                              for o in c.get("obs") or []])
+            if c.get("multi"):
+                series = sx_list(["(%d %d 2 %s)" % (d, s0["fp"], sx_labels(s0["labels"])) for s0 in c["ldb"] for d in s0["days"]])
+                lines.append("(msel %d %s %s %s %s %s %s)" % (cid, cl, sx_hints(h), sx_matchers(c.get("ms")), sx_rows, series, sx_obs))
+            else:
+                lines.append("(sel %d %s %s %s %s %s %s)" % (
+                    cid, cl, sx_hints(h), sx_matchers(c.get("ms")), sx_rows,
+                    sx_list(["(%d %s)" % (f["fp"], sx_labels(f["labels"])) for f in c.get("fetch") or []]), sx_obs))
             if c.get("sql_labels"):
                 canon, fps = sort_in_list(c["sql_labels"])
                 c["sql_labels_canon"] = canon
@@ -624,6 +652,10 @@ def run_shard(ck, cases, idx):
             got = dec(res["prof"][cid][0])
             if got != want:
                 mism.append((c, first_diff(got, want)))
+        if c.get("multi") and not c.get("err"):
+            want_n = 1 if c.get("rows") else 0
+            if c.get("labels_statements") != want_n:
+                mism.append((c, "call %d of a multi-Select run sent %d labels requests, its own rows need %d" % (c["call"], c.get("labels_statements"), want_n)))
         if cid in res["lbl"]:
             nsql += 1
             got = dec(res["lbl"][cid][0])
@@ -675,7 +707,7 @@ def run_shard(ck, cases, idx):
             bad[code].append(byid[cid])
         elif code in explained:
             explained[code] += 1
-            fid = {5: "absent-label-not-selected", 7: "more-than-8-matchers", 8: None, 10: "step-bucket-off-grid",
+            fid = {5: "absent-label-not-selected", 7: "more-than-63-matchers", 8: None, 10: "step-bucket-off-grid",
                    11: "range-filter-off-grid", 12: "step-bucket-staleness-edge"}[code]
             if byid[cid]["kind"] == "prof" and fid:
                 fid = "prof-" + fid
